@@ -214,15 +214,15 @@ Theorem lookup_sound regs ls sc n v :
   lookup_label regs ls sc n = Some v ->
   (exists f r, sc = ScLocal f r /\ lfind ls (KLocal r n) = Some v)
   \/ lfind ls (KFile (scope_file sc) n) = Some v
-  \/ (mem n regs = false /\ lfind ls (KGlobal n) = Some v).
+  \/ (reg_mem n regs = false /\ lfind ls (KGlobal n) = Some v).
 Proof.
   unfold lookup_label. destruct sc as [f|f r]; cbn [scope_file].
   - destruct (lfind ls (KFile f n)) as [x|] eqn:E1; [intros H; inversion H; subst; right; left; reflexivity|].
-    destruct (mem n regs) eqn:E; [discriminate|]. intros H. right. right. split; [reflexivity | exact H].
+    destruct (reg_mem n regs) eqn:E; [discriminate|]. intros H. right. right. split; [reflexivity | exact H].
   - destruct (lfind ls (KLocal r n)) as [x|] eqn:E0;
       [intros H; inversion H; subst; left; exists f, r; split; [reflexivity | exact E0]|].
     destruct (lfind ls (KFile f n)) as [x|] eqn:E1; [intros H; inversion H; subst; right; left; reflexivity|].
-    destruct (mem n regs) eqn:E; [discriminate|]. intros H. right. right. split; [reflexivity | exact H].
+    destruct (reg_mem n regs) eqn:E; [discriminate|]. intros H. right. right. split; [reflexivity | exact H].
 Qed.
 
 (* labels are stored under the key their prefix prescribes: a local label under its own region, a file label under its
@@ -272,7 +272,7 @@ Proof. intros H. unfold set_label. now rewrite H. Qed.
 
 (* a register name never resolves as a label through the global scope *)
 Theorem register_not_a_label regs ls f n :
-  mem n regs = true -> lfind ls (KFile f n) = None -> lookup_label regs ls (ScFile f) n = None.
+  reg_mem n regs = true -> lfind ls (KFile f n) = None -> lookup_label regs ls (ScFile f) n = None.
 Proof. intros H1 H2. unfold lookup_label. cbn. now rewrite H2, H1. Qed.
 
 (* ------------------------------------------------------------------------------------------ *)
